@@ -22,6 +22,20 @@ SAMPLE = {
     "IDENT": lambda k: "abcdefghijklmnopqrstuvwxyz"[k % 26],
 }
 
+# alternative spellings per literal terminal (dump round trip only): raw line breaks inside triple-quoted literals, both quote
+# characters, raw / bytes prefixes in both cases, escapes, hexadecimal and exponent forms
+NL = chr(10)
+VARIANTS = {
+    "STRING_LIT": ["'q{k}'", 'r"a\\d{k}"', '"a\\n{k}"', "R'{k}\\'", '"\\"{k}"', '"tab\t{k}"'],
+    "MLSTRING_LIT": ['"""a' + NL + 'b{k}"""', "\'\'\'x\"y{k}\'\'\'", 'r"""a' + NL + '\\{k}"""', '"""' + NL + NL + '{k}"""',
+                     "\'\'\'a\r" + NL + "{k}\'\'\'", '"""a\\n{k}"""'],
+    "BYTES_LIT": ["b'y{k}'", 'b"""a' + NL + '{k}"""', 'br"\\x{k}"', "B'\\x41{k}'", "bR\'\'\'" + NL + "{k}\'\'\'", 'b"\\377{k}"'],
+    "INT_LIT": ["0x{k}F", "0x{k}A", "{k}0", "0{k}", "00", "9223372036854775807"],
+    "UINT_LIT": ["{k}U", "0x{k}u", "0{k}u", "{k}0U", "0u", "18446744073709551615u"],
+    "FLOAT_LIT": ["{k}e3", "{k}.0E-2", ".{k}5", "{k}.5e+1", "0.0", "{k}e0"],
+    "IDENT": ["_{k}", "a_{k}b", "A{k}", "trueish{k}", "nullable{k}", "in_{k}"],
+}
+
 
 class Real:
     """The grammar Lark built for CELParser, regenerated from the current source tree."""
@@ -77,13 +91,16 @@ class Real:
             self.lexeme[name] = SAMPLE.get(name, lambda k, s=s: s)
         return name
 
-    def render(self, names):
-        """token names -> (text with single spaces between sample lexemes, char offset of every token)"""
+    def render(self, names, variant=0):
+        """token names -> (text with single spaces between sample lexemes, char offset of every token);
+        variant > 0 spells the literal terminals with the alternative spelling VARIANTS[terminal][variant - 1]"""
         parts, offs, pos = [], [], 0
         for k, nm in enumerate(names):
             if nm not in self.lexeme:
                 raise RuntimeError(f"no sample lexeme for terminal {nm}")
             lx = self.lexeme[nm](k)
+            if variant and nm in VARIANTS:
+                lx = VARIANTS[nm][(variant - 1) % len(VARIANTS[nm])].replace("{k}", str(k))
             parts.append(lx)
             offs.append(pos)
             pos += len(lx) + 1
